@@ -30,11 +30,14 @@ INVARIANT NoLeak
 BASE = dict(CounterScope="thread", ExcPolicy="leak", TopCmp=">", DepTest="id", Depth=2, Export="FALSE")
 
 
-def mc(family, depth=2, export=False, workers=16, **switches):
+def mc(family, depth=2, export=False, workers=16, only_result=False, **switches):
     c = dict(BASE)
     c.update(Family=family, Depth=depth, Export="TRUE" if export else "FALSE")
     c.update(switches)
-    return vlib.run_tlc("MCAGM", cfg=CFG % c, workers=workers, timeout=3000, tag="MCAGM-" + family)
+    cfg = CFG % c
+    if only_result:      # mutants must be visible in the RESULT (what a user observes), not only in internal invariants
+        cfg = "\n".join(l for l in cfg.splitlines() if not l.startswith("INVARIANT") or "ResultIsDen" in l) + "\n"
+    return vlib.run_tlc("MCAGM", cfg=cfg, workers=workers, timeout=3000, tag="MCAGM-" + family)
 
 
 def export(family, depth=2):
@@ -80,7 +83,7 @@ def run_agm(pid, tier, seed, fams, mutants, rule, assumptions, sample=None):
             cases.append(p)
     killed = []
     for fam, depth, sw in mutants:
-        r = mc(fam, depth, **sw)
+        r = mc(fam, depth, only_result=True, **sw)
         if r.ok and not r.violated:
             raise vlib.MachineryError("model mutant %s on %s/%d not rejected (vacuity guard)" % (sw, fam, depth))
         killed.append({"switch": sw, "family": fam, "rejected_by": r.violated or "TLC evaluation error (crash of the mutated machine)"})
@@ -88,7 +91,8 @@ def run_agm(pid, tier, seed, fams, mutants, rule, assumptions, sample=None):
         c["id"] = i + 1
         c["variant"] = (i + seed) % 30
     # replay (the exported model result / den stay on this side; the worker gets id + prog + variant)
-    work = [{"id": c["id"], "prog": c["prog"], "variant": c["variant"]} for c in cases]
+    work = [{"id": c["id"], "prog": c["prog"], "variant": c["variant"], "schedule": c["sched"] if len(c["prog"]["threads"]) > 1 else []}
+            for c in cases]
     traces, files = vlib.parallel_replay("agm_replay.py", work, nproc=14, tag="agm")
     accepted, g2, d2, _w, inv = vlib.parallel_validate("TraceAGM", files, cfg=TRACE_CFG, njvm=14)
     if inv:
@@ -125,7 +129,8 @@ def run_agm(pid, tier, seed, fams, mutants, rule, assumptions, sample=None):
         verdict.drift_note("program %d (%s): observation differs from the implementation-shaped machine (result or trace ids) "
                            "although the property holds: obs=%s ids=%s machine=%s ids=%s" %
                            (tid, exp_by_id[tid]["family"], by_id[tid]["obs"], by_id[tid]["ids"], exp_by_id[tid]["result"], exp_by_id[tid]["log"]))
-    nontrivial = len({json.dumps(c["prog"], sort_keys=True) for c in cases if c["id"] not in unknown_ids})
+    nontrivial = len({json.dumps([c["prog"], c["sched"] if len(c["prog"]["threads"]) > 1 else []], sort_keys=True)
+                      for c in cases if c["id"] not in unknown_ids})
     s_ids = [cases[0]["id"], cases[len(cases) // 2]["id"], cases[-1]["id"]]
     coverage = {
         "states": states, "transitions": trans, "traces_validated_against_impl": len(traces),
@@ -202,6 +207,37 @@ def c19(tier, seed, replay=None):
                    "differentiations in the same process; all programs of one worker process run in sequence, so every program also runs after the "
                    "failures of its predecessors",
                    ASSUME)
+
+
+def c20(tier, seed, replay=None):
+    if replay:
+        return _replay("C20", replay)
+    q = tier == "quick"
+    t0 = time.time()
+    # exhaustive interleaving check (states merged by VIEW): per-thread counters hold, the global counter must fail
+    extra = []
+    for fam in (["threads2"] if q else ["threads2", "threads3"]):
+        c = dict(BASE)
+        c.update(Family=fam)
+        cfg = (CFG % c).replace("SPECIFICATION Spec", "SPECIFICATION Spec\nVIEW NoSched")
+        r = vlib.tlc_must_pass(vlib.run_tlc("MCAGM", cfg=cfg, workers=16, timeout=3000, tag="MCAGM-view"), "thread model " + fam)
+        extra.append({"family": fam, "all_interleavings_distinct_states": r.distinct, "generated": r.generated})
+    c = dict(BASE)
+    c.update(Family="threads2", CounterScope="global")
+    cfg = "\n".join(l for l in (CFG % c).splitlines() if not l.startswith("INVARIANT") or "ResultIsDen" in l) + "\nVIEW NoSched\n"
+    r = vlib.run_tlc("MCAGM", cfg=cfg, workers=16, timeout=3000, tag="MCAGM-global")
+    if r.ok:
+        raise vlib.MachineryError("the global-counter variant (pinned defect) was not rejected by the thread model")
+    extra.append({"model_mutant": "CounterScope=global", "rejected_by": r.violated or "evaluation error"})
+    fams = [("threads2small", 2, 1500 if q else None)] + ([] if q else [("threads2", 2, 20000)])
+    rc = run_agm("C20", tier, seed, fams, [],
+                 "two (thorough: three) threads, at least one of them nested; every interleaving of their machine steps is model-checked "
+                 "(states merged by a VIEW); for the small pairs every distinct schedule is exported by TLC and replayed with real threads "
+                 "under a strict baton scheduler that switches threads exactly at the machine-step boundaries; each thread's result must "
+                 "equal its run-alone meaning", ASSUME + [
+                     "real threads are serialised by the baton scheduler: preemption inside autograd's own code is not explored here",
+                     "thread-interleaving model: %s" % json.dumps(extra)])
+    return rc
 
 
 def agm_part(pid, tier, seed, fams):
